@@ -80,6 +80,13 @@ def gen_params():
                      ("CLIENT", "octo-squirrel-client/src/client/shadowsocks.rs")]:
         m = find(rel, r"validate_packet_id\(\s*[\w\.]+\s*,\s*([^\)]+)\)", what="validate_packet_id call site")
         const("PW_LIMIT_" + tag, rust_int(m.group(1)), rel)
+    # the client keeps one window per server session: how many, and which one makes room (DatagramPacketCodec::filter_of)
+    rel = "octo-squirrel-client/src/client/shadowsocks.rs"
+    m = find(rel, r"const\s+MAX_SERVER_SESSIONS\s*:\s*usize\s*=\s*([^;]+);", what="const MAX_SERVER_SESSIONS")
+    const("SSUDP_CLIENT_MAX_SERVER_SESSIONS", rust_int(m.group(1)), rel)
+    m = find(rel, r"if\s+self\.filters\.len\(\)\s*==\s*MAX_SERVER_SESSIONS\s*\{\s*self\.filters\.remove\((\d+)\);\s*\}\s*self\.filters\.push\(\(server_session_id,\s*PacketWindowFilter::default\(\)\)\);",
+             what="filter_of: eviction of one entry when MAX_SERVER_SESSIONS are held, then push of a default window")
+    const("SSUDP_CLIENT_EVICTED_INDEX", int(m.group(1)), rel)
 
     # --- shadowsocks 2022 (C10, C03) ---
     f = "octo-squirrel/src/codec/shadowsocks/aead_2022.rs"
